@@ -193,6 +193,8 @@ def run(ctx):
     sweep = ctx.params.get("hashseed_sweep")
     n = (25 if sweep else 110) if thorough else 14
     for i in range(n):
+        if ctx.over_budget():
+            break
         w = gen_source(rng)
         if w is None:
             continue
